@@ -4,7 +4,7 @@
    Node i (1-based) = i-th declaration.  The predicate computes five tables by K rounds of local
    updates (K = number of nodes) and then CHECKS local conditions on them; the theorems use only
    the checked conditions (the tables are certificates), never how they were computed.
-     H  height                        every edge goes to a node of smaller height (DAG)
+     H  height (< number of nodes)     every edge goes to a node of smaller height (DAG)
      T  upper bound of the features mentioned below a node
      D  dead: an f node, or an and node with an edge into a dead node (the loader deletes exactly
         these and nodes: delete_parent_and_chain)
@@ -121,6 +121,7 @@ Definition and_ok (T : list (list nat)) (i : nat) : bool :=
 
 Definition node_ok (H : list nat) (T : list (list nat)) (D R : list bool) (L : list (list nat))
   (i : nat) : bool :=
+  (get H i 0 <? nk) &&
   forallb (fun e => (get H (snd e) 0 <? get H i 0)
                     && incln (lit_vars (fst e)) (get T i []) && incln (get T (snd e) []) (get T i [])
                     && edge_ok T e) (edges i)
